@@ -10,6 +10,10 @@ pub enum Ev<Req, Res, E> {
 pub enum Note { Gate(bool), Record { failure: bool, nanos: nat }, Kernel(int), Budget(bool), Lock }
 pub tracked struct Trace<Req, Res, E> {
     pub ghost notes: Seq<Note>,
+    pub ghost reqs: Seq<Req>,               // the requests handed to the inner service, in order
+    pub ghost slept_since_done: nat,        // nanoseconds slept since the last InnerDone
+    pub ghost granted_since_done: bool,     // a budget grant was obtained since the last InnerDone
+    pub ghost denied: bool,                 // the budget refused a retry
     pub ghost fb_calls: nat,       // calls of the fallback / backup
     pub ghost fb_req: Option<Req>,
     pub ghost fb_done: Option<Result<Res, E>>,
@@ -28,7 +32,7 @@ pub tracked struct Trace<Req, Res, E> {
 impl<Req, Res, E> Trace<Req, Res, E> {
     pub open spec fn fresh(self) -> bool {
         self.ev.len() == 0 && self.calls == 0 && self.done == 0 && self.held.len() == 0 && self.held.finite() && self.unguarded == 0 && self.slept == 0
-            && self.notes.len() == 0 && self.fb_calls == 0 && self.fb_req is None && self.fb_done is None
+            && self.notes.len() == 0 && self.reqs.len() == 0 && self.slept_since_done == 0 && !self.granted_since_done && !self.denied && self.fb_calls == 0 && self.fb_req is None && self.fb_done is None
             && self.last_req is None && self.last_done is None && !self.admitted && !self.created && self.blocked == 0
     }
 }
